@@ -49,6 +49,34 @@ class FakeConnection(object):
         return None
 
 
+class _V(object):
+    def __init__(self, value):
+        self.value = value
+
+
+class FakeResult(object):
+    def __init__(self, with_message):
+        from kmip.core import enums
+        self.result_status = _V(enums.ResultStatus.OPERATION_FAILED)
+        self.result_reason = _V(enums.ResultReason.ITEM_NOT_FOUND)
+        self.result_message = _V("replayed failure") if with_message else None
+
+    def __getattr__(self, name):
+        return None
+
+
+class FakeProxy(object):
+    """Scripted KMIPProxy: every operation answers with a failure result."""
+
+    def __init__(self, with_message=True):
+        self._with_message = with_message
+
+    def __getattr__(self, name):
+        if name.startswith('__'):
+            raise AttributeError(name)
+        return lambda *a, **k: FakeResult(self._with_message)
+
+
 CONNECTION_STRATEGY = ['all']
 
 
@@ -56,6 +84,8 @@ def build_native(v, memo=None):
     """Counterexample value (from concretize) -> native Python object."""
     if memo is None:
         memo = {}
+    if isinstance(v, dict) and v.get('__class__') == 'vf.envmodel.Proxy':
+        return FakeProxy(bool(v.get('__messages__', True)))
     if isinstance(v, dict) and v.get('__class__') == 'vf.envmodel.Connection':
         return FakeConnection(v.get('remaining', b''), CONNECTION_STRATEGY[0])
     if isinstance(v, dict) and '__class__' in v:
